@@ -134,13 +134,15 @@ fn main() -> Result<(), Box<dyn std::error::Error>> {
                 }
                 s.write_tokenized_text(&mut buf);
                 out.write_all(buf.as_bytes())?;
+                out.write_all(b"\n")?;
                 if args.scores {
                     print_scores(&s, &mut out)?;
                 }
-            }
-            out.write_all(b"\n")?;
-            if args.tag_scores {
-                print_tag_scores(&s, &mut out)?;
+                if args.tag_scores && args.predict_tags {
+                    print_tag_scores(&s, &mut out)?;
+                }
+            } else {
+                out.write_all(b"\n")?;
             }
             if is_tty {
                 out.flush()?;
@@ -168,11 +170,11 @@ fn main() -> Result<(), Box<dyn std::error::Error>> {
                 if args.scores {
                     print_scores(&s, &mut out)?;
                 }
+                if args.tag_scores && args.predict_tags {
+                    print_tag_scores(&s, &mut out)?;
+                }
             } else {
                 out.write_all(b"\n")?;
-            }
-            if args.tag_scores {
-                print_tag_scores(&s, &mut out)?;
             }
             if is_tty {
                 out.flush()?;
